@@ -586,6 +586,7 @@ func instrumentAccesses(fset *token.FileSet, rel string, typed *TypedInfo, f *as
 	}
 	var doList func(list []ast.Stmt) []ast.Stmt
 	var doStmt func(st ast.Stmt)
+	elemCnt := 0
 	headerNodes := func(st ast.Stmt) []ast.Node {
 		switch s := st.(type) {
 		case *ast.IfStmt:
@@ -649,6 +650,22 @@ func instrumentAccesses(fset *token.FileSet, rel string, typed *TypedInfo, f *as
 			s.Body.List = doList(s.Body.List)
 		case *ast.RangeStmt:
 			s.Body.List = doList(s.Body.List)
+			if typed != nil && typed.ElemRanges[rel][fset.Position(s.Pos()).Offset] {
+				// every iteration copies one struct element out of the backing array: a read of all its fields
+				elemCnt++
+				kid, _ := s.Key.(*ast.Ident)
+				if kid == nil || kid.Name == "_" {
+					kid = ast.NewIdent(fmt.Sprintf("vi__%d", elemCnt))
+					s.Key = kid
+				}
+				read := callCoop("AccessStructF", thunk(&ast.UnaryExpr{Op: token.AND, X: &ast.IndexExpr{X: s.X, Index: ast.NewIdent(kid.Name)}}),
+					strLit(types.ExprString(s.X)+"[i]"), boolLit(false))
+				use := &ast.AssignStmt{Lhs: []ast.Expr{ast.NewIdent("_")}, Tok: token.ASSIGN, Rhs: []ast.Expr{ast.NewIdent(kid.Name)}}
+				s.Body.List = append([]ast.Stmt{use, read}, s.Body.List...)
+				needImports[shimCoop] = "vcoop"
+				n++
+				rep.Rewrites["elem range"]++
+			}
 		case *ast.SwitchStmt:
 			doStmt(s.Body)
 		case *ast.TypeSwitchStmt:
@@ -710,6 +727,13 @@ func instrumentAccesses(fset *token.FileSet, rel string, typed *TypedInfo, f *as
 				doFuncLits(h)
 			}
 			out = append(out, st)
+			if as, ok := st.(*ast.AssignStmt); ok && typed != nil && typed.AppendsInPlace[rel][fset.Position(as.Pos()).Offset] {
+				// x = append(y[i:j], ...): elements were written into a backing array that may be shared
+				out = append(out, callCoop("AccessElemsF", thunk(as.Lhs[0]), strLit(types.ExprString(as.Lhs[0])), boolLit(true)))
+				needImports[shimCoop] = "vcoop"
+				n++
+				rep.Rewrites["append in place"]++
+			}
 		}
 		return out
 	}
